@@ -112,8 +112,18 @@ def gen_proc():
         r"\.wait_while\(caller_mutex\.lock\(\)\.unwrap\(\), \|caller\| \{ \*caller == CallingProcess::Pending \}\) \.unwrap\(\)$",
         query))
 
+    # the caller's side (src/main.rs run_app): the launched command is published before the Config is built,
+    # which makes the first query - the order Proc.v's main thread has (publish, then the queries)
+    msrc = rustsrc.load(os.path.join(REPO, "src/main.rs"))
+    mbody = norm(rustsrc.fn_body(msrc, r"pub fn run_app\("))
+    ppos = mbody.find("utils::process::set_calling_process(")
+    cpos = mbody.find("config::Config::from(opt)")
+    pub_first = 0 <= ppos < cpos and mbody.count("set_calling_process(") == 1
     text = f"""(* GENERATED by tools/translate.py from src/utils/process.rs -- do not edit. *)
 From DV Require Import Proc.
+
+(* src/main.rs run_app: set_calling_process is called (once) before Config::from, which makes the first query *)
+Definition publishes_before_first_query : bool := {coq_bool(pub_first)}.
 
 Definition code_params : params :=
   mkParams {coq_bool(bg_guard)} {coq_bool(guard_under_lock)} {coq_bool(bg_notify)} {coq_bool(pub_marks_known)} {coq_bool(pub_notify)} {coq_bool(query_waits)}.
@@ -124,7 +134,7 @@ Definition shapes_exact : bool := {coq_bool(exact)}.
     info = {
         "params": dict(bg_guard=bg_guard, guard_under_lock=guard_under_lock, bg_notify=bg_notify,
                        pub_marks_known=pub_marks_known, pub_notify=pub_notify, query_waits=query_waits),
-        "shapes_exact": exact, "notes": notes,
+        "shapes_exact": exact, "notes": notes, "publishes_before_first_query": pub_first,
     }
     return "GenProc.v", text, info
 
